@@ -174,6 +174,34 @@ def m_vec_push(E, st, fr, bi, callee, args, dest_ty):
     return ret1(UNIT, st)
 
 
+def m_vec_extend_from_slice(E, st, fr, bi, callee, args, dest_ty):
+    """Vec::extend_from_slice(&mut self, other): self becomes self ++ other (distinguished elements kept while both
+    parts are short and fully distinguished)"""
+    p = args[0]
+    s = as_seq(E, st, p)
+    o = as_seq(E, st, args[1])
+    usz = E.ctx.usize_ty()
+    newlen = E.binop(st, "Add", s.len, o.len, usz, False)
+    ls, lo = st.const(s.len), st.const(o.len)
+    heads = None
+    if ls is not None and lo is not None and ls + lo <= 64 and (ls == 0 or (s.head and len(s.head) == ls)) and (lo == 0 or (o.head and len(o.head) == lo)):
+        heads = {i: s.head[i] for i in range(ls)}
+        for i in range(lo):
+            heads[ls + i] = o.head[i]
+    elif ls is not None and s.head and len(s.head) == ls and ls <= 64:
+        heads = dict(s.head)              # the prefix stays distinguished
+    es = E._flat_elem(st, s) if st.hi(s.len) > 0 else None
+    eo = E._flat_elem(st, o) if st.hi(o.len) > 0 else None
+    if es is None or (type(es) is Bot):
+        elem = eo if eo is not None else s.elem
+    elif eo is None or (type(eo) is Bot):
+        elem = es
+    else:
+        elem = E.join_vals(st, es, eo)
+    write_through(E, st, p, Sq(elem, newlen, heads or None, None))
+    return ret1(UNIT, st)
+
+
 def m_from_elem(E, st, fr, bi, callee, args, dest_ty):
     # vec![e; n]
     n = st.const(args[1]) if type(args[1]) is I else None
@@ -1373,6 +1401,74 @@ def m_int_unary(kind):
     return f
 
 
+
+def m_int_arith(kind, op):
+    """wrapping_* / saturating_* / checked_* on machine integers (intervals only)"""
+    def f(E, st, fr, bi, callee, args, dest_ty):
+        a, b = args
+        if type(a) is not I or type(b) is not I:
+            raise Unsupported(kind)
+        if kind == "wrapping":
+            return ret1(E.binop(st, op, a, b, dest_ty, False), st)
+        t = E.prog.ty(dest_ty)
+        ity = dest_ty if kind == "saturating" else t.adt["variants"][SOME]["fields"][0]["ty"]
+        tlo, thi = E.prog.ty(ity).int_range()
+        la, ha = st.itv[a.vid]
+        lb, hb = st.itv[b.vid]
+        if op == "Add":
+            lo, hi = la + lb, ha + hb
+        elif op == "Sub":
+            lo, hi = la - hb, ha - lb
+        else:
+            cs = [x * y for x in (la, ha) for y in (lb, hb)]
+            lo, hi = min(cs), max(cs)
+        tt = (tl(st, a.vid) or EMPTY) | (tl(st, b.vid) or EMPTY)
+        if kind == "saturating":
+            return ret1(E.ctx.mk_int(st, max(tlo, min(thi, lo)), max(tlo, min(thi, hi)), ity, taint=tt or False), st)
+        vs = {}
+        if hi >= tlo and lo <= thi:
+            if tlo <= lo and hi <= thi:
+                vs[SOME] = (E.binop(st, op, a, b, ity, False),)
+            else:
+                vs[SOME] = (E.ctx.mk_int(st, max(lo, tlo), min(hi, thi), ity, taint=tt or False),)
+        if lo < tlo or hi > thi:
+            vs[NONE] = ()
+        return ret1(En(vs), st)
+    f.__name__ = f"m_{kind}_{op}"
+    return f
+
+
+def m_int_abs(E, st, fr, bi, callee, args, dest_ty):
+    a = args[0]
+    if type(a) is not I:
+        raise Unsupported("abs")
+    lo, hi = st.itv[a.vid]
+    tlo, thi = E.prog.ty(dest_ty).int_range()
+    obligation(E, fr, bi, "Overflow", lo > tlo, f"abs of {st.itv[a.vid]}", "abs(x), x != MIN")
+    lo = max(lo, tlo + 1)
+    r = (lo, hi) if lo >= 0 else ((-hi, -lo) if hi <= 0 else (0, max(-lo, hi)))
+    z = E.ctx.mk_int(st, r[0], r[1], dest_ty, taint=tl(st, a.vid))
+    st.prov[z.vid] = ("abs", (a.vid,), None)
+    return ret1(z, st)
+
+
+def m_int_bits(kind):
+    def f(E, st, fr, bi, callee, args, dest_ty):
+        a = args[0]
+        if type(a) is not I:
+            raise Unsupported(kind)
+        bits = E.prog.ty(a.ty).bits()
+        lo, hi = st.itv[a.vid]
+        if lo == hi and lo >= 0:
+            v = {"leading_zeros": bits - lo.bit_length(), "trailing_zeros": (bits if lo == 0 else (lo & -lo).bit_length() - 1), "count_ones": bin(lo).count("1")}[kind]
+            return ret1(E.ctx.const_int(st, v, dest_ty), st)
+        if kind == "leading_zeros" and lo >= 0:
+            return ret1(E.ctx.mk_int(st, bits - hi.bit_length(), bits - lo.bit_length(), dest_ty), st)
+        return ret1(E.ctx.mk_int(st, 0, bits, dest_ty), st)
+    f.__name__ = f"m_{kind}"
+    return f
+
+
 def m_overflowing(op):
     def f(E, st, fr, bi, callee, args, dest_ty):
         a, b = args
@@ -1466,6 +1562,10 @@ def m_float_unary(kind):
             return ret1(Fl(-INF, INF, a.nan, tag), st)
         if kind == "floor":
             return ret1(Fl(float(math.floor(a.lo)), float(math.floor(a.hi)), False, tag), st)
+        if kind == "ceil":
+            return ret1(Fl(float(math.ceil(a.lo)), float(math.ceil(a.hi)), False, tag), st)
+        if kind == "trunc":
+            return ret1(Fl(float(math.trunc(a.lo)), float(math.trunc(a.hi)), False, tag), st)
         if kind == "round":
             r = lambda x: float(math.floor(abs(x) + 0.5)) * (1 if x >= 0 else -1)
             return ret1(Fl(r(a.lo), r(a.hi), False, tag), st)
@@ -1636,6 +1736,7 @@ def build(ctx):
     V = r"std::vec::Vec::<[^>]*(?:<[^>]*>[^>]*)*>::"
     A(r"^std::vec::Vec::<.*>::new$", m_vec_new)
     A(r"^std::vec::Vec::<.*>::with_capacity$", m_vec_with_capacity)
+    A(r"^std::vec::Vec::<.*>::extend_from_slice$", m_vec_extend_from_slice)
     A(r"^std::vec::Vec::<.*>::len$", m_vec_len)
     A(r"^std::vec::Vec::<.*>::is_empty$", m_is_empty)
     A(r"^std::vec::Vec::<.*>::push$", m_vec_push)
@@ -1704,6 +1805,14 @@ def build(ctx):
     A(r"^(core|std)::num::<impl [iu]\w+>::ilog2$", m_int_unary("ilog2"))
     A(r"^(core|std)::num::<impl u\w+>::checked_ilog2$", m_int_unary("checked_ilog2"))
     A(r"^(core|std)::num::<impl u\w+>::overflowing_add$", m_overflowing("Add"))
+    for _k in ("wrapping", "saturating", "checked"):
+        for _o, _n in (("Add", "add"), ("Sub", "sub"), ("Mul", "mul")):
+            A(rf"^(core|std)::num::<impl [iu]\w+>::{_k}_{_n}$", m_int_arith(_k, _o))
+    A(r"^(core|std)::num::<impl i\w+>::abs$", m_int_abs)
+    for _k in ("leading_zeros", "trailing_zeros", "count_ones"):
+        A(rf"^(core|std)::num::<impl [iu]\w+>::{_k}$", m_int_bits(_k))
+    A(r"^(core|std)::f64::<impl f64>::trunc$", m_float_unary("trunc"))
+    A(r"^(core|std)::f64::<impl f64>::ceil$", m_float_unary("ceil"))
     A(r"^(core|std)::num::<impl u\w+>::overflowing_sub$", m_overflowing("Sub"))
     A(r"^(core|std)::num::<impl [ui]\w+>::from_be_bytes$", m_from_bytes_int("be"))
     A(r"^(core|std)::num::<impl [ui]\w+>::from_le_bytes$", m_from_bytes_int("le"))
